@@ -4,6 +4,7 @@ import (
 	"fmt"
 	"go/token"
 	"go/types"
+	"sort"
 	"strings"
 
 	"golang.org/x/tools/go/ssa"
@@ -207,7 +208,7 @@ func (e *Engine) callFunction(st *State, fn *ssa.Function, args []Value, binding
 		return r, out
 	}
 	// 4. contract in use-mode
-	if ct, ok := e.W.Contracts[name]; ok && ct.UseAtCalls && !e.harness.Real[name] && !e.inWrapperOf(name) && e.contractInScope(ct) {
+	if ct, ok := e.W.Contracts[name]; ok && ct.UseAtCalls && !e.harness.Real[name] && (!ct.OptIn || e.harness.Use[name]) && !e.inWrapperOf(name) && e.contractInScope(ct) {
 		return e.useContract(st, ct, fn, args, pos)
 	}
 	if e.inWrapperOf(name) && e.curCtr().mode == modeUse {
@@ -632,6 +633,23 @@ func (e *Engine) strID(v Value) *smt.Term {
 		return t
 	}
 	f := c.DeclFunc("strid", []smt.Sort{bv64, bv64, bv64}, bv64)
+	// bridge: a string that may be one of the program's literals (e.g. after a join) has that literal's id
+	if e.litBridged == nil {
+		e.litBridged = map[string]bool{}
+	}
+	lits := make([]string, 0, len(e.strLits))
+	for s := range e.strLits {
+		if !e.litBridged[s] && s != "" {
+			lits = append(lits, s)
+		}
+	}
+	sort.Strings(lits)
+	for _, s := range lits {
+		e.litBridged[s] = true
+		lv := e.strLits[s]
+		id := e.strID(Value{T: types.Typ[types.String], L: lv.L})
+		e.axiom(c.Eq(c.App(f, lv.L[0], lv.L[1], lv.L[2]), id))
+	}
 	t := c.App(f, v.L[0], v.L[1], v.L[2])
 	e.axiom(c.Eq(c.App(e.sidLen(), t), v.L[2]))
 	e.axiom(c.Implies(c.Eq(v.L[2], e.k64(0)), c.Eq(t, e.k64(0))))
